@@ -109,6 +109,7 @@ type Vault struct {
 	UnwrapWrong  bool // return a different 32-byte key
 	UnwrapShort  bool // return a short key
 	UnwrapErr    bool // return an error
+	Pad          int  // extra bytes a wrapped key carries beyond the 32 key bytes (AES-KW: 8, RSA-OAEP: modulus size - 32)
 	YieldInCalls bool // let the scheduler switch inside the callbacks (C08)
 	FileKey      []byte
 	WFK          []byte
@@ -136,6 +137,9 @@ func (v *Vault) Wrap(plaintextKey []byte, algorithm, keyName string, nonce []byt
 	for i, b := range plaintextKey {
 		w[i] = b ^ mask(keyName)
 	}
+	for i := 0; i < v.Pad; i++ {
+		w = append(w, byte(0xa0+i%7))
+	}
 	v.WFK = w
 	return w, nil, nil
 }
@@ -152,6 +156,9 @@ func (v *Vault) Unwrapper(encKey string) enc.UnwrapKeyFn {
 		}
 		if v.UnwrapErr {
 			return nil, errors.New("vault: key not found")
+		}
+		if len(wrappedKey) > 32 {
+			wrappedKey = wrappedKey[:32] // the padding of a longer wrapping carries no key material
 		}
 		out := make([]byte, len(wrappedKey))
 		for i, b := range wrappedKey {
@@ -177,9 +184,18 @@ var Algorithms = []struct {
 	{enc.KeyAlgorithmAES256CBC, 4, "A256CBC-NOPAD"}, {enc.KeyAlgorithmRSAOAEP256, 5, "RSA-OAEP-256"}, {enc.KeyAlgorithmAES, 1, "A256KW"}, {enc.KeyAlgorithmRSA, 5, "RSA-OAEP-256"},
 }
 
+// WrappedKeyPads are the sizes real wrappings add to a 32-byte file key: none (a bare stub), 8 (AES-KW),
+// and what RSA-OAEP produces with 2048-, 3072-, 4096- and 8192-bit keys.
+var WrappedKeyPads = []int{0, 8, 224, 352, 480, 992}
+
 // RefDocument builds a document with the reference encoder. variant selects the JSON shape
 // of the manifest (key order, presence of k).
 func RefDocument(s *simrt.Sim, plaintext []byte, keyName string, kw, cph int, variant int) (doc, fk []byte, err error) {
+	return RefDocumentPad(s, plaintext, keyName, kw, cph, variant, 0)
+}
+
+// RefDocumentPad is RefDocument with a wrapped file key of 32+pad bytes.
+func RefDocumentPad(s *simrt.Sim, plaintext []byte, keyName string, kw, cph int, variant int, pad int) (doc, fk []byte, err error) {
 	fk = make([]byte, 32)
 	np := make([]byte, 7)
 	rand.Read(fk)
@@ -187,6 +203,9 @@ func RefDocument(s *simrt.Sim, plaintext []byte, keyName string, kw, cph int, va
 	wfk := make([]byte, 32)
 	for i, b := range fk {
 		wfk[i] = b ^ mask(keyName)
+	}
+	for i := 0; i < pad; i++ {
+		wfk = append(wfk, byte(0xa0+i%7))
 	}
 	wfkJ, _ := json.Marshal(wfk)
 	npJ, _ := json.Marshal(np)
